@@ -407,17 +407,20 @@ class Check:
                 ids = [l.split()[0] for l in pending]
                 outs = [l for l in out.splitlines() if l.strip()]
                 done = 0
+                stuck_last = False
                 for l in outs:
                     w = l.split()[0]
                     if done < len(ids) and w == ids[done]:
                         out_map[ids[done]] = l
                         done += 1
+                        stuck_last = False
                     elif l.startswith("DSCHED-STUCK") and done < len(ids):
                         out_map[ids[done]] = l
                         done += 1
+                        stuck_last = True
                 if rc == 0 and done >= len(ids):
                     break
-                if done < len(ids) and ids[done] not in out_map:
+                if done < len(ids) and ids[done] not in out_map and not stuck_last:
                     out_map[ids[done]] = "CRASH rc=%d %s" % (rc, (err or "").strip().replace("\n", " ")[-300:])
                     done += 1
                 pending = pending[done:]
